@@ -20,6 +20,11 @@ class _Infeasible(BaseException):
     pass
 
 
+class Abandon(BaseException):
+    """the current path is given up (not infeasible): exploration goes on with the other paths, the reason is counted in
+    STATS.abandoned and makes the run inconclusive unless a violation is replayed"""
+
+
 class PathLimit(Inconclusive):
     pass
 
@@ -448,6 +453,7 @@ class Explorer:
         self.max_paths = max_paths
         self.timeout_ms = timeout_ms
         self.summaries = {}
+        self.max_abandoned = 8
 
     def explore(self, fn):
         """fn(ctx) is executed once per feasible path; returns list of fn's return values"""
@@ -455,6 +461,7 @@ class Explorer:
         work = [[]]
         results = []
         n = 0
+        n_abandoned = 0
         while work:
             prefix = work.pop()
             if n >= self.max_paths:
@@ -469,6 +476,14 @@ class Explorer:
                 STATS.states += 1
             except _Infeasible:
                 pass
+            except Abandon as e:
+                STATS.abandoned[str(e)] += 1
+                n_abandoned += 1
+                if n_abandoned >= self.max_abandoned:
+                    # giving up path after path is pointless: the rest of this exploration is dropped (and counted)
+                    STATS.abandoned[f"exploration stopped after {n_abandoned} abandoned paths"] += 1
+                    CUR = None
+                    return results
             finally:
                 CUR = None
             work.extend(ctx.alts)
